@@ -43,12 +43,12 @@ func c08observe(in *cons.Inst, err error, newBlocks []*cons.Block, probeRoots bo
 }
 
 func runC08(c *ev.Ctx) {
-	c.Rule = "multi-epoch runs (2..8 validators, forks <1/3, lag, sleeper regime, 1-3 epochs with validator-set changes, ~5% of the stream are invalid events with a wrong claimed frame so that reject decisions are compared too). " +
+	c.Rule = "multi-epoch runs (2..8 validators, forks <1/3 with every third run in a fork-root regime of frequent forks whose twins are mostly never built on, lag, sleeper regime, 1-3 epochs with validator-set changes, ~5% of the stream are invalid events with a wrong claimed frame so that reject decisions are compared too). " +
 		"Baseline A never restarts. (a) chain: instance B is torn down and rebuilt after EVERY event (main DB and current epoch DB copied into fresh stores, new abft.Store, fresh vecfc.Index, Bootstrap); (b) fork-off: at EVERY boundary i (runs <= limit events; otherwise every boundary within +-2 of a decision/seal plus a seeded sample) a clone restarted from A's state at i continues to the end. " +
 		"Oracle per event: Process error/nil, newly emitted blocks (epoch, frame, Atropos, cheaters, delivered count, sealed), epoch, validators, last decided frame and the root sets of frames decided..decided+3 are identical to A's; no block is emitted while Bootstrap runs. " +
 		"non-trivial = distinct (run, boundary) pairs where the boundary directly follows a decision or an epoch seal"
 	c.Assumptions = []string{"the application's event storage (EventSource) survives the restart; main DB and the current epoch DB are what abft persists", "cheaters < 1/3"}
-	nRuns := c.Pick(240, 2400)
+	nRuns := c.Pick(480, 3600)
 	allLimit := c.Pick(110, 260)
 	c.Parallel(nRuns, 0, func(i int) {
 		r := c.Rand("run", i)
@@ -56,6 +56,12 @@ func runC08(c *ev.Ctx) {
 		cfg := genCfgFor(r, i, o)
 		if cfg.EventsPer > o.maxEvents {
 			cfg.EventsPer = o.maxEvents
+		}
+		if i%3 == 0 {
+			// fork-root regime: cheaters fork often and most twins are strays nobody builds on, so that several
+			// fork roots of one validator sit in one undecided frame and only some of them are observed later
+			cfg.ForkProb, cfg.StrayProb = 0.35+r.Float64()*0.3, 0.6
+			c.Count("fork_root_regime_runs", 1)
 		}
 		for _, p := range cfg.Plans {
 			if p.SealAt > 4 {
